@@ -48,7 +48,7 @@ def run_rules(mod, prog: Program):
     return ctx, rep
 
 
-PRESENCE_KEYS = ("rename-on-error", "column-density", "fancy-accumulate", "density-unregularised", "retained-state-copy", "caller-array-write", "handed-out-logw-modified", "temperature-rebound", "stride-assumption", "seed-transformed", "checkpoint-seed", "draw-cached", "import-time-draw", "stream-rewind", "pool-cached", "pool-read", "vectorize-read",
+PRESENCE_KEYS = ("clusterer-wiring", "copy-flag-rebound", "single-mode-agreement", "eigh-rows", "ess-lossy", "set-order-layout", "first-iteration-guard", "lost-fancy-store", "kernel-parameter-rebound", "rename-on-error", "column-density", "fancy-accumulate", "density-unregularised", "retained-state-copy", "caller-array-write", "handed-out-logw-modified", "temperature-rebound", "stride-assumption", "seed-transformed", "checkpoint-seed", "draw-cached", "import-time-draw", "stream-rewind", "pool-cached", "pool-read", "vectorize-read",
                  "cached-mutation", "inplace:", "shared-history-list", "foreign-rebind", "alias-mutation", "errstate-underflow", "weights-dtype", "wrapper-stateless", "wrapper-branch",
                  "wrapper-argument", "logl-rewritten", "logl-dtype", "partial-row-copy", "multinomial-pvals-tolerance", "rank-index", "mode-attr-write", "shared-clusterer-rebound",
                  "spectral-floor", "row-gather", "fold-guard-jump", "fold-exact", "unpicklable-attr", "retry-loop", "iter-seed", "facade-partial-selection", "result-attr",
@@ -147,6 +147,12 @@ def check(prop: str, tier: str, repo: str | None, write: bool = True) -> int:
                     bad2 = [o for o in rep2.obligations if (not o.ok) and engine.match_known(o, prop, known) is None]
                     if not bad2 and not rep2.errors:
                         normal_form_note = f"decided on the normal form with {len(inlined)} helper(s) inlined: {inlined}"
+                        rep2.notes.append(normal_form_note)
+                        prog, ctx, rep = prog2, ctx2, rep2
+                    elif bad2 and rep.errors and not any((not o.ok) and engine.match_known(o, prop, known) is None for o in rep.obligations):
+                        # undecided on the tree as written (a rule could not read it), decided on its normal form: the normal
+                        # form is the same program with the new helpers written out, so what a rule finds there is found
+                        normal_form_note = f"undecided as written ({'; '.join(x[:80] for x in rep.errors[:2])}); decided on the normal form with {len(inlined)} helper(s) inlined: {inlined}"
                         rep2.notes.append(normal_form_note)
                         prog, ctx, rep = prog2, ctx2, rep2
                     else:
